@@ -58,6 +58,8 @@ enum Harm {
     /// NODATA / NXDOMAIN for data that exists, built from the name's own
     /// NSEC/NSEC3, or from the parent side of the delegation (u8: mode).
     DenyExisting(u8),
+    /// A closed cycle of (unsigned) DNAME records in the insecure zone.
+    DnameLoop,
 }
 
 #[derive(Default)]
@@ -142,7 +144,7 @@ fn harm(r: &mut Resp, h: Harm, world: &World) -> bool {
     use domain::rdata::ZoneRecordData as D;
     let is_sig = |rec: &super::dnssec_world::SRec| rec.rtype() == Rtype::RRSIG;
     match h {
-        Harm::None | Harm::TransportError | Harm::Nxdomain | Harm::ForgedNxdomainBelowCut | Harm::WildcardReplay | Harm::ForgeDnameCname | Harm::RootKeySwap | Harm::WildcardNsecReplay | Harm::DenyExisting(_) => false,
+        Harm::None | Harm::TransportError | Harm::Nxdomain | Harm::ForgedNxdomainBelowCut | Harm::WildcardReplay | Harm::ForgeDnameCname | Harm::RootKeySwap | Harm::WildcardNsecReplay | Harm::DenyExisting(_) | Harm::DnameLoop => false,
         Harm::ForeignSigner => {
             // One signed RRset of the answer section.
             let covered: Vec<(String, Rtype)> = r
@@ -402,7 +404,7 @@ impl Scenario for ValidatorScn {
     }
 }
 
-const QUERIES: [(&str, Rtype, &str); 30] = [
+const QUERIES: [(&str, Rtype, &str); 31] = [
     ("www.zone.tld.", Rtype::A, "positive"),
     ("www.zone.tld.", Rtype::TXT, "positive"),
     ("zone.tld.", Rtype::SOA, "positive"),
@@ -431,6 +433,7 @@ const QUERIES: [(&str, Rtype, &str); 30] = [
     ("ext.zone.tld.", Rtype::A, "cname-insecure"),
     ("host.unsigned.tld.", Rtype::A, "insecure"),
     ("nope.unsigned.tld.", Rtype::A, "insecure-nxdomain"),
+    ("x.la.unsigned.tld.", Rtype::A, "insecure-nxdomain"),
     ("plain.tld.", Rtype::TXT, "positive-tld"),
     ("other.", Rtype::TXT, "positive-root"),
 ];
@@ -564,6 +567,7 @@ async fn run(_tier: Tier) {
                     Harm::DenyExisting(1),
                     Harm::DenyExisting(2),
                     Harm::DenyExisting(3),
+                    Harm::DnameLoop,
                 ],
             )
         } else {
@@ -594,6 +598,15 @@ async fn run(_tier: Tier) {
                 Some(f) => {
                     r = f;
                     sim::stat("fault.dname_cname_redirected");
+                    true
+                }
+                None => false,
+            }
+        } else if final_harm == Harm::DnameLoop {
+            match w.forged_dname_loop(qname) {
+                Some(f) => {
+                    r = f;
+                    sim::stat("fault.dname_cycle");
                     true
                 }
                 None => false,
